@@ -112,7 +112,7 @@ Fixpoint head_vals (e : enc) : list tval :=
 
 Definition zr (lo hi x : Z) : bool := ((lo <=? x) && (x <=? hi))%Z.
 
-(* the payloads the Rust variant types admit, plus what Encode needs to succeed and round-trip:
+(* the payloads the Rust variant types allow, plus what Encode needs to succeed and round-trip:
    Simple not 24..=31; F16 payload exactly representable in half precision *)
 Definition token_ok (t : token) : bool :=
   match t with
